@@ -274,4 +274,29 @@ func genC15(w *bufio.Writer, tier string, rng *rand.Rand) {
 			fmt.Fprintf(w, "loess %s %s %d %s %s\n", fmtFs(xs), fmtFs(ys), deg, fmtF(span), fmtFs(qs))
 		}
 	}
+
+	// designed data: symmetric integer abscissae and even / odd integer polynomials, so that some
+	// fitted coefficients are exactly zero (not merely of the order of the rounding error)
+	for k := 0; k < pick(tier, 60, 1500); k++ {
+		m := 2 + rng.Intn(3)
+		sc := math.Ldexp(1, rng.Intn(3)-1)
+		var xs, ys []float64
+		a, b2, c1 := float64(rng.Intn(7)-3), float64(rng.Intn(5)-2), float64(rng.Intn(5)-2)
+		odd := rng.Intn(2) == 0
+		for i := -m; i <= m; i++ {
+			x := float64(i) * sc
+			xs = append(xs, x)
+			if odd {
+				ys = append(ys, c1*x+b2*x*x*x)
+			} else {
+				ys = append(ys, a+b2*x*x)
+			}
+		}
+		d := 1 + rng.Intn(3)
+		if d > len(xs)-2 {
+			d = len(xs) - 2
+		}
+		ev := []float64{0, 1, -1, 2, -2, 0.5, xs[0], 3}
+		fmt.Fprintf(w, "preg %s %s - %d %s\n", fmtFs(xs), fmtFs(ys), d, fmtFs(ev))
+	}
 }
